@@ -31,13 +31,17 @@ type event struct {
 func (s *Handler) Send(eventType string, data string) {
 	s.m.Lock()
 	defer s.m.Unlock()
+	verifEvent("send", 0, nil, data)
 	for _, f := range s.requests {
 		f := f
+		verifEvent("spawn", 0, f, data)
 		go func(f chan event) {
+			verifEvent("gate", 0, f, data)
 			f <- event{
 				Type: eventType,
 				Data: data,
 			}
+			verifEvent("dend", 0, f, data)
 		}(f)
 	}
 }
@@ -53,11 +57,14 @@ func (s *Handler) ServeHTTP(w http.ResponseWriter, r *http.Request) {
 	s.m.Lock()
 	events := make(chan event)
 	s.requests[id] = events
+	verifEvent("register", id, events, "")
 	s.m.Unlock()
 	defer func() {
+		verifEvent("exit", id, events, "")
 		s.m.Lock()
 		defer s.m.Unlock()
 		delete(s.requests, id)
+		verifEvent("unregister", id, events, "")
 		close(events)
 	}()
 
